@@ -5,6 +5,8 @@ import (
 	"go/token"
 	"go/types"
 	"math/big"
+	"strings"
+	"sync"
 
 	"verif/gosym/smt"
 )
@@ -24,6 +26,65 @@ var (
 func isF32(t types.Type) bool {
 	b, ok := under(t).(*types.Basic)
 	return ok && b.Kind() == types.Float32
+}
+
+// ---- exactness tracking: integral-valued reals with |value| < 2^53 are exactly representable ----
+
+type realInfo struct {
+	integral bool
+	bound    *big.Int // |value| <= bound; nil = unknown
+}
+
+var realInfos sync.Map // term id -> realInfo
+
+var two53 = new(big.Int).Lsh(big.NewInt(1), 53)
+
+func setRealInfo(t *smt.Term, ri realInfo) { realInfos.Store(t.ID(), ri) }
+
+func getRealInfo(t *smt.Term) realInfo {
+	if t.IsConst() {
+		b := new(big.Int).Quo(new(big.Int).Abs(t.R.Num()), t.R.Denom())
+		b.Add(b, big.NewInt(1))
+		return realInfo{integral: t.R.IsInt(), bound: b}
+	}
+	if v, ok := realInfos.Load(t.ID()); ok {
+		return v.(realInfo)
+	}
+	return realInfo{}
+}
+
+// exactResult: is the exact result e of op(x,y) representable (no rounding needed)?
+func exactArith(op token.Token, e, x, y *smt.Term) bool {
+	xi, yi := getRealInfo(x), getRealInfo(y)
+	if !xi.integral || !yi.integral || xi.bound == nil || yi.bound == nil {
+		return false
+	}
+	var b *big.Int
+	switch op {
+	case token.ADD, token.SUB:
+		b = new(big.Int).Add(xi.bound, yi.bound)
+	case token.MUL:
+		b = new(big.Int).Mul(xi.bound, yi.bound)
+	default:
+		return false
+	}
+	if b.Cmp(two53) >= 0 {
+		return false
+	}
+	setRealInfo(e, realInfo{integral: true, bound: b})
+	return true
+}
+
+const poisonPrefix = "poison_"
+
+// hasPoison: does the term depend on the result of a float division by zero (Inf/NaN)?
+func hasPoison(t *smt.Term) bool {
+	for _, v := range termVars(t) {
+		if strings.HasPrefix(v, poisonPrefix) {
+			return true
+		}
+	}
+	return false
 }
 
 func (m *M) freshReal(hint string) *smt.Term {
@@ -48,22 +109,37 @@ func (m *M) roundFloat(e *smt.Term, t types.Type, fromInt bool) *smt.Term {
 	if m.ex.Cfg.FloatExact {
 		return e
 	}
-	if fromInt && !f32 && e.Op == "to_real" {
+	if fromInt && !f32 {
 		// int32 and smaller are exact; int64 conversions assumed |x| < 2^53 (recorded assumption)
-		m.ex.noteAssumption("int->float64 conversions are exact (|x| < 2^53)")
 		return e
 	}
+	if bi := getRealInfo(e); !f32 && bi.integral && bi.bound != nil && bi.bound.Cmp(two53) < 0 {
+		return e // integral and below 2^53: exactly representable
+	}
 	r := m.freshReal("r")
+	if bi := getRealInfo(e); bi.bound != nil {
+		setRealInfo(r, realInfo{bound: new(big.Int).Add(bi.bound, big.NewInt(1))})
+	}
 	eps := eps64
 	if f32 {
 		eps = eps32
 	}
 	d := smt.RMul(rabs(e), smt.RealC(eps))
-	fl := smt.ToReal(smt.ToIntFloor(e))
+	if bi := getRealInfo(e); bi.bound != nil && !f32 && bi.bound.BitLen() <= 40 {
+		// |e| < 2^k: the relative bound 2^-53*|e| is over-approximated by the absolute bound 2^(k-53)
+		// (sound, and keeps the constraint linear with tame coefficients)
+		d = smt.RealC(new(big.Rat).SetFrac(big.NewInt(1), new(big.Int).Lsh(big.NewInt(1), uint(53-bi.bound.BitLen()))))
+	}
+	// floor(e) as an explicit integer variable k: k <= e < k+1 (solvers handle this much better than to_int/is_int)
+	m.st.NextObj++
+	k := smt.Var(fmt.Sprintf("fk_%d", m.st.NextObj), smt.Int)
+	fl := smt.ToReal(k)
+	one := smt.RealC(big.NewRat(1, 1))
 	c := smt.And(
+		smt.RLe(fl, e), smt.RLt(e, smt.RAdd(fl, one)),
 		smt.RLe(smt.RSub(e, d), r), smt.RLe(r, smt.RAdd(e, d)),
-		smt.RLe(fl, r), smt.RLe(r, smt.RAdd(fl, smt.RealC(big.NewRat(1, 1)))),
-		smt.Implies(smt.IsInt(e), smt.Eq(r, e)),
+		smt.RLe(fl, r), smt.RLe(r, smt.RAdd(fl, one)),
+		smt.Implies(smt.Eq(e, fl), smt.Eq(r, e)),
 	)
 	m.st.PC = append(m.st.PC, c)
 	m.ex.noteAssumption("float results: rounding relation level 1 (relative 2^-53, floor/ceil bracket, exact on integers); no overflow/NaN/subnormals")
@@ -71,15 +147,49 @@ func (m *M) roundFloat(e *smt.Term, t types.Type, fromInt bool) *smt.Term {
 }
 
 func (m *M) floatBinop(op token.Token, x, y *smt.Term, t types.Type) Value {
+	arith := func(e *smt.Term) Value {
+		if !isF32(t) && !e.IsConst() && exactArith(op, e, x, y) {
+			return e
+		}
+		r := m.roundFloat(e, t, false)
+		if e.IsConst() {
+			return r
+		}
+		if xi, yi := getRealInfo(x), getRealInfo(y); xi.bound != nil && yi.bound != nil && getRealInfo(r).bound == nil {
+			var b *big.Int
+			switch op {
+			case token.ADD, token.SUB:
+				b = new(big.Int).Add(xi.bound, yi.bound)
+			case token.MUL:
+				b = new(big.Int).Mul(xi.bound, yi.bound)
+			}
+			if b != nil {
+				setRealInfo(r, realInfo{bound: b.Add(b, big.NewInt(1))})
+			}
+		}
+		return r
+	}
+	switch op {
+	case token.LSS, token.LEQ, token.GTR, token.GEQ:
+		if hasPoison(x) || hasPoison(y) {
+			abortf("Inf/NaN (float division by zero) reaches a comparison: outside the float model")
+		}
+	}
 	switch op {
 	case token.ADD:
-		return m.roundFloat(smt.RAdd(x, y), t, false)
+		return arith(smt.RAdd(x, y))
 	case token.SUB:
-		return m.roundFloat(smt.RSub(x, y), t, false)
+		return arith(smt.RSub(x, y))
 	case token.MUL:
-		return m.roundFloat(smt.RMul(x, y), t, false)
+		return arith(smt.RMul(x, y))
 	case token.QUO:
-		m.implicitAssert(smt.Not(smt.Eq(y, smt.RealC(new(big.Rat)))), "float-div-by-zero")
+		if m.Decide(smt.Eq(y, smt.RealC(new(big.Rat)))) {
+			// x/0 is +-Inf or NaN: a poison value; converting it to an integer gives an arbitrary value
+			// (implementation-defined in Go), comparing it is outside the model
+			m.st.NextObj++
+			m.ex.noteAssumption("float division by zero yields a poison value (Inf/NaN): integer conversions of it are arbitrary, comparisons abort the path")
+			return smt.Var(fmt.Sprintf("%sdiv_%d", poisonPrefix, m.st.NextObj), smt.Real)
+		}
 		return m.roundFloat(smt.RDiv(x, y), t, false)
 	case token.LSS:
 		return smt.RLt(x, y)
